@@ -95,6 +95,7 @@ func main() {
 		panicOK  = flag.Bool("panicok", false, "uncaught panics are not violations")
 		revMap   = flag.Bool("revmap", false, "iterate maps in reverse insertion order")
 		mapRot   = flag.Bool("maprotate", false, "fork over the starting point of every map iteration")
+		noPort   = flag.Bool("noportfolio", false, "do not retry unknown solver answers with fresh solvers in other configurations")
 		maxViol  = flag.Int("maxviol", 40, "stop exploring after this many violating paths outside the known findings (0 = never)")
 		nomerge  = flag.Bool("nomerge", false, "disable function-level merging")
 		nodom    = flag.Bool("nodomains", false, "disable unary domain reasoning (every branch goes to the solver)")
@@ -122,7 +123,7 @@ func main() {
 		return
 	}
 	t0 := time.Now()
-	conf := Config{Unwind: *unwind, MaxSteps: *maxSteps, MaxDepth: 400, MaxPaths: *maxPaths, MaxViolPaths: *maxViol, MaxAlloc: 1 << 22,
+	conf := Config{Unwind: *unwind, MaxSteps: *maxSteps, MaxDepth: 400, MaxPaths: *maxPaths, MaxViolPaths: *maxViol, NoPortfolio: *noPort, MaxAlloc: 1 << 22,
 		MaxIteTable: 4096, MaxConcretize: 300, Workers: *workers, SolverKind: *solver, TimeoutMs: *timeout,
 		Trace: *trace, Verbose: *verbose, MapOrderReversed: *revMap, MapRotate: *mapRot, NoMerge: *nomerge, Bounds: map[string]int{},
 		KnownOpen: map[string]bool{}, PanicOK: *panicOK, SolverLog: *slog, NoDomains: *nodom}
@@ -345,7 +346,7 @@ func main() {
 		Encoding: *enc, Solver: *solver, Paths: eng.stats.Paths, PathStatus: eng.stats.PathsByStatus,
 		Queries: map[string]int{"feas_sat": eng.stats.FeasSat, "feas_unsat": eng.stats.FeasUnsat, "feas_unknown": eng.stats.FeasUnknown,
 			"assert_sat": eng.stats.AssertSat, "assert_unsat": eng.stats.AssertUnsat, "assert_unknown": eng.stats.AssertUnknown,
-			"assert_concrete": eng.stats.AssertConcrete, "merged_calls": eng.stats.Merged, "if_conversions": int(eng.ifconv.Load()), "domain_decided": int(eng.domDecided.Load())},
+			"assert_concrete": eng.stats.AssertConcrete, "portfolio_rescued": eng.stats.PortfolioRescued, "merged_calls": eng.stats.Merged, "if_conversions": int(eng.ifconv.Load()), "domain_decided": int(eng.domDecided.Load())},
 		Decisions: eng.stats.Decisions, Steps: eng.stats.Steps, SolverTimeS: eng.stats.SolverTime.Seconds(), WallS: wall, LoadS: loadS,
 		ReachSites: map[string]int{}, MaxAlloc: eng.stats.MaxAllocSeen}
 	seenV := map[string]int{}
